@@ -140,6 +140,9 @@ var giantFamilies = []string{
 	"spans_with_attrs", "spans_with_events", "spans_with_links", "spans_attrs_or_events", "spans_plain",
 	"logs_with_attrs", "logs_plain", "metrics_plain", "metrics_with_points", "resources_traces", "resources_logs", "resources_metrics",
 	"scopes_traces", "scopes_logs", "scopes_metrics",
+	// N (resource, scope) groups made of the SAME 256 scopes under N/256
+	// resources: few distinct scopes, many scope ids
+	"sharedscopes_traces", "sharedscopes_logs", "sharedscopes_metrics",
 	// children tables (32-bit ids): one parent with N attribute-bearing
 	// children - representable, so no refusal is demanded; no panic is
 	"events_with_attrs", "links_with_attrs", "points_with_attrs", "exemplars_with_attrs",
@@ -172,6 +175,8 @@ func (g Giant) mustRefuse() bool {
 		return false // no attribute-bearing parents: nothing to number
 	case "events_with_attrs", "links_with_attrs", "points_with_attrs", "exemplars_with_attrs":
 		return false // 32-bit ids: representable
+	case "sharedscopes_traces", "sharedscopes_logs", "sharedscopes_metrics":
+		return false // whether scope ids number distinct scopes or groups is the encoder's choice
 	}
 	return g.N > 65536
 }
@@ -182,6 +187,8 @@ func (g Giant) mustAccept() bool {
 		return true
 	case "events_with_attrs", "links_with_attrs", "points_with_attrs", "exemplars_with_attrs":
 		return false // either outcome is accepted, only a panic is not
+	case "sharedscopes_traces", "sharedscopes_logs", "sharedscopes_metrics":
+		return false
 	}
 	return g.N <= 65535
 }
@@ -271,6 +278,42 @@ func buildGiant(g Giant) Input {
 				dp := m.SetEmptyGauge().DataPoints().AppendEmpty()
 				dp.SetIntValue(int64(i % 5))
 				dp.Attributes().PutInt("i", int64(i%7))
+			}
+		}
+		return Input{Signal: Metrics, Metrics: md}
+	case "sharedscopes_traces":
+		td := ptrace.NewTraces()
+		for i := 0; i < n; i += 256 {
+			rs := td.ResourceSpans().AppendEmpty()
+			rs.Resource().Attributes().PutInt("r", int64(i))
+			for j := 0; j < 256 && i+j < n; j++ {
+				ss := rs.ScopeSpans().AppendEmpty()
+				ss.Scope().SetName("sc" + strconv.Itoa(j))
+				ss.Spans().AppendEmpty().SetName("s")
+			}
+		}
+		return Input{Signal: Traces, Traces: td}
+	case "sharedscopes_logs":
+		ld := plog.NewLogs()
+		for i := 0; i < n; i += 256 {
+			rl := ld.ResourceLogs().AppendEmpty()
+			rl.Resource().Attributes().PutInt("r", int64(i))
+			for j := 0; j < 256 && i+j < n; j++ {
+				sl := rl.ScopeLogs().AppendEmpty()
+				sl.Scope().SetName("sc" + strconv.Itoa(j))
+				sl.LogRecords().AppendEmpty().Body().SetStr("b")
+			}
+		}
+		return Input{Signal: Logs, Logs: ld}
+	case "sharedscopes_metrics":
+		md := pmetric.NewMetrics()
+		for i := 0; i < n; i += 256 {
+			rm := md.ResourceMetrics().AppendEmpty()
+			rm.Resource().Attributes().PutInt("r", int64(i))
+			for j := 0; j < 256 && i+j < n; j++ {
+				sm := rm.ScopeMetrics().AppendEmpty()
+				sm.Scope().SetName("sc" + strconv.Itoa(j))
+				sm.Metrics().AppendEmpty().SetName("m")
 			}
 		}
 		return Input{Signal: Metrics, Metrics: md}
@@ -444,26 +487,31 @@ func runGiant(g Giant) string {
 func TestC08Giants(t *testing.T) {
 	rec := kit.Get("C08")
 	rapid.Check(t, func(t *rapid.T) {
-		g := Giant{
-			Family: rapid.SampledFrom(giantFamilies).Draw(t, "family"),
-			N:      rapid.SampledFrom([]int{65535, 65536, 65537, 65537, 70000, 131073}).Draw(t, "n"),
-			Before: rapid.IntRange(0, 2).Draw(t, "before"),
-			After:  rapid.IntRange(0, 2).Draw(t, "after"),
-		}
-		if rapid.IntRange(0, 3).Draw(t, "othersmall") == 0 {
-			g.SmallSig = rapid.SampledFrom([]string{Traces, Logs, Metrics}).Draw(t, "smallsig")
-		}
-		msg := runGiant(g)
-		labels := []string{"giant:" + g.Family, fmt.Sprintf("giant_n=%d", g.N)}
-		if g.mustRefuse() {
-			labels = append(labels, "giant_must_be_refused")
-		}
-		if g.After > 0 && g.mustRefuse() {
-			labels = append(labels, "small_batch_after_refused_giant")
-		}
-		rec.Case(true, "giant:"+g.String(), labels, func() any { return map[string]any{"giant": g} })
-		if msg != "" {
-			rec.Fail(t, g.toCase(), "%s", msg)
+		// one giant of EVERY family per case (the size and the surrounding
+		// small batches are drawn): with a random family a given (family, size
+		// class) cell was missed by a third of the quick runs
+		for _, fam := range giantFamilies {
+			g := Giant{
+				Family: fam,
+				N:      rapid.SampledFrom([]int{65537, 65536, 65535, 70000, 131073, 65537}).Draw(t, "n"),
+				Before: rapid.IntRange(0, 2).Draw(t, "before"),
+				After:  rapid.IntRange(0, 2).Draw(t, "after"),
+			}
+			if rapid.IntRange(0, 3).Draw(t, "othersmall") == 0 {
+				g.SmallSig = rapid.SampledFrom([]string{Traces, Logs, Metrics}).Draw(t, "smallsig")
+			}
+			msg := runGiant(g)
+			labels := []string{"giant:" + g.Family, fmt.Sprintf("giant_n=%d", g.N)}
+			if g.mustRefuse() {
+				labels = append(labels, "giant_must_be_refused")
+			}
+			if g.After > 0 && g.mustRefuse() {
+				labels = append(labels, "small_batch_after_refused_giant")
+			}
+			rec.Case(true, "giant:"+g.String(), labels, func() any { return map[string]any{"giant": g} })
+			if msg != "" {
+				rec.Fail(t, g.toCase(), "%s", msg)
+			}
 		}
 	})
 }
